@@ -48,3 +48,20 @@ Theorem C12_crop_tiers_share_span g a b m r g' :
                    | TP t => pmin t = (if r then 0 else a) /\ pmax t = (if r then b - a else b) end) (tiers g').
 Proof. exact (tg_crop_spans g a b m r g'). Qed.
 Print Assumptions C12_crop_tiers_share_span.
+
+(* Textgrid.eraseRegion: same names, same order, each tier = that tier's own eraseRegion(truncate);
+   the textgrid's own span shrinks by exactly the region's length *)
+Theorem C12_erase_tierwise g a b s g' :
+  NoDup (names g) -> tg_erase g a b s = Ok g' ->
+  names g' = names g
+  /\ Forall2 (fun t t' => erase_tier t a b s = Ok t') (tiers g) (tiers g')
+  /\ tgmax g' = (if s then match tgmax g with Some m => Some (m - (b - a)) | None => None end else tgmax g).
+Proof. exact (tg_erase_tierwise g a b s g'). Qed.
+Print Assumptions C12_erase_tierwise.
+
+(* Textgrid.insertSpace *)
+Theorem C12_space_tierwise g s d m g' :
+  NoDup (names g) -> tg_space g s d m = Ok g' ->
+  names g' = names g /\ Forall2 (fun t t' => space_tier t s d m = Ok t') (tiers g) (tiers g').
+Proof. exact (tg_space_tierwise g s d m g'). Qed.
+Print Assumptions C12_space_tierwise.
